@@ -24,6 +24,7 @@ type UnitResult struct {
 	World       *World
 	Vacuity     string // "" ok, else reason
 	VacuityUnknown bool
+	Pruned      int
 	Canary      bool
 	Trusted     bool
 	Seconds     float64
@@ -70,6 +71,10 @@ func (e *Engine) VerifyFunc(con *Contract, workdir string, timeoutS int, all boo
 	u := &Unit{Key: key, Con: con, Fn: fn, Spec: ps}
 	x := e.newExec(u, ps.Mode)
 	res.World = x.w
+	if !e.noPrune {
+		x.feas = newFeasSolver()
+		defer x.feas.close()
+	}
 	func() {
 		defer func() {
 			if r := recover(); r != nil {
@@ -171,6 +176,9 @@ func (e *Engine) VerifyFunc(con *Contract, workdir string, timeoutS int, all boo
 		})
 	}()
 	res.Paths = x.paths
+	if x.feas != nil {
+		res.Pruned = x.feas.pruned
+	}
 	res.Notes = dedupe(x.notes)
 	res.Obls = x.obls
 	if res.Unsupported == "" {
